@@ -40,7 +40,11 @@ func CheckQueueCrashImages(r *QRunner, cp CrashParams, st *CrashStats) (v *Viola
 	}
 	imgNo := 0
 	lastK := -1
-	simdisk.Enumerate(log, r.CreatedIdx, o, rnd, func(spec simdisk.CrashSpec, pend []simdisk.PendOp, img []byte) {
+	from := r.CreatedIdx
+	if cp.FromFirstFailure && r.FirstFailIdx > from+40 {
+		from = r.FirstFailIdx - 40
+	}
+	simdisk.Enumerate(log, from, o, rnd, func(spec simdisk.CrashSpec, pend []simdisk.PendOp, img []byte) {
 		if v != nil {
 			return
 		}
@@ -205,14 +209,39 @@ func queueSuffix(f *txfile.File, old [][]byte, spec simdisk.CrashSpec) *Violatio
 	}
 	ev := make([]byte, 1500)
 	EventFill(1<<20, 0, ev)
-	if _, err := w.Write(ev); err != nil {
-		return violationf("qcrash-suffix", spec.K, "crash image {%s}: Write failed: %v", spec.String(), err)
+	bounded := f.VerifState().MaxPages > 0
+	wrote, completed := false, false
+	appendEvent := func() error {
+		if !wrote {
+			if _, err := w.Write(ev); err != nil {
+				return fmt.Errorf("Write failed: %v", err) // a failing Write consumed nothing
+			}
+			wrote = true
+		}
+		if !completed {
+			completed = true // also if the flush inside Next fails the event is complete in the buffer
+			if err := w.Next(); err != nil {
+				return fmt.Errorf("Next failed: %v", err)
+			}
+		}
+		if err := w.Flush(); err != nil {
+			return fmt.Errorf("Flush failed: %v", err)
+		}
+		return nil
 	}
-	if err := w.Next(); err != nil {
-		return violationf("qcrash-suffix", spec.K, "crash image {%s}: Next failed: %v", spec.String(), err)
-	}
-	if err := w.Flush(); err != nil {
-		return violationf("qcrash-suffix", spec.K, "crash image {%s}: Flush failed: %v", spec.String(), err)
+	if err := appendEvent(); err != nil {
+		// on a bounded file that is full the writer reports an error; reading and ACK still work,
+		// and once the recovered events are ACKed the buffered event can be flushed
+		if !bounded || len(old) == 0 {
+			return violationf("qcrash-suffix", spec.K, "crash image {%s}: %v", spec.String(), err)
+		}
+		if err := q.ACK(uint(len(old))); err != nil {
+			return violationf("qcrash-suffix", spec.K, "crash image {%s}: file full (%v), then ACK(%d) of the recovered events failed: %v", spec.String(), err, len(old), err)
+		}
+		old = nil
+		if err := appendEvent(); err != nil {
+			return violationf("qcrash-suffix", spec.K, "crash image {%s}: after ACKing all recovered events on the full file: %v", spec.String(), err)
+		}
 	}
 	got, v := DrainCopy(f)
 	if v != nil {
